@@ -100,6 +100,7 @@ def parseOp (j : Json) : Except String (Option (List Op)) := do
   | "lat" => return some [.setLat (← (← arg j 1).getNat?) (← getON (← arg j 2))]
   | "fill" => return some [.setFill (← (← arg j 1).getNat?) (← getON (← arg j 2))]
   | "vol_calc" => return some [.setVolCalc (← (← arg j 1).getBool?)]
+  | "observe" => return some []
   | _ => throw s!"unknown op {name}"
 
 def kJ (k : K) : Json := Json.str k.pfx
